@@ -612,7 +612,13 @@ func (t *Int64Tree) NewScanner(key int64) *Int64Cursor {
 		n = child
 	}
 	ln := n.(*int64LeafNode)
-	return newInt64Cursor(ln, int64SearchGreaterThanOrEqualTo(key, ln.runts))
+	index := int64SearchGreaterThanOrEqualTo(key, ln.runts)
+	if index < len(ln.runts) && ln.runts[index] < key {
+		// The search never returns len(ln.runts); when even the final key of
+		// this leaf is smaller than key, start after it.
+		index++
+	}
+	return newInt64Cursor(ln, index)
 }
 
 // Int64Cursor is used to enumerate key-value pairs from the tree in
